@@ -209,8 +209,14 @@ impl Driver {
         }
     }
 
-    /// Apply one step to the real behaviour and log it.
     pub fn step(&mut self, s: &Step, log: &mut Ndjson) -> Outcome {
+        let mut sig = vec![];
+        self.step_collect(s, log, &mut sig)
+    }
+
+    /// Apply one step to the real behaviour and log it; `sig` receives the output signature "t/proto/kind/k".
+    pub fn step_collect(&mut self, s: &Step, log: &mut Ndjson, sig: &mut Vec<String>) -> Outcome {
+        sig.clear();
         self.steps += 1;
         if self.cfg.strict && !self.consistent(s) {
             log.ev(json!({"ev": "skip", "a": s.a, "p": s.p, "m": s.m.json()}));
@@ -341,6 +347,15 @@ impl Driver {
         if s.a == "startsync" {
             self.sync_started = true;
         }
+        for o in out.iter() {
+            sig.push(format!(
+                "{}/{}/{}/{}",
+                o["t"].as_str().unwrap_or(""),
+                o["m"]["proto"].as_str().unwrap_or(""),
+                o["m"]["kind"].as_str().unwrap_or(""),
+                o["k"].as_str().unwrap_or("")
+            ));
+        }
         let evname = if s.a == "idle" { "hk" } else { s.a.as_str() };
         let mut ev = json!({"ev": evname, "p": s.p, "m": s.m.json(), "out": out});
         self.state_json(&mut ev);
@@ -353,19 +368,33 @@ pub fn log_reset(log: &mut Ndjson, sid: &str, cfg: &Cfg) {
     log.ev(json!({"ev": "reset", "sid": sid, "cfg": cfg.json()}));
 }
 
-/// `init-run`: replay schedules (one JSON object per line: {"id":.., "cfg":{..}, "sched":[steps]}).
+/// `init-run`: replay schedules (one JSON object per line: {"id":.., "cfg":{..}, "sched":[steps], "exp":[..]}).
+/// `--log 0` only reports, per schedule, whether the outputs of the last step are the ones the design model
+/// expects (`exp`: [[t, proto, kind, k]..], compared as a multiset); the check uses that to choose which runs
+/// are worth a full trace.
 pub fn run_schedules(args: &pv_core::Args) {
     let rows = pv_core::read_ndjson(args.get("in"));
-    let mut log = Ndjson::create(args.get("out"));
+    let full = args.num("log", 1) == 1;
+    let scratch = format!("{}.scratch", args.get("res"));
+    let mut log = Ndjson::create(if full { args.get("out") } else { &scratch });
     let mut res = Ndjson::create(args.get("res"));
     for (i, row) in rows.iter().enumerate() {
-        let cfg = Cfg::from_json(&row["cfg"]);
+        let mut cfg = Cfg::from_json(&row["cfg"]);
+        if !full {
+            cfg.snap = false;
+        }
         let sid = row["id"].as_str().map(|s| s.to_string()).unwrap_or(format!("s{i}"));
+        if !full {
+            // keep the scratch log small: one schedule at a time
+            log = Ndjson::create(&scratch);
+        }
         log_reset(&mut log, &sid, &cfg);
         let mut d = Driver::new(cfg);
         let (mut done, mut skipped, mut panicked) = (0, 0, false);
-        for st in pv_core::jarr(&row["sched"]) {
-            match d.step(&Step::from_json(st), &mut log) {
+        let steps = pv_core::jarr(&row["sched"]);
+        let mut last_out: Vec<String> = vec![];
+        for st in steps {
+            match d.step_collect(&Step::from_json(st), &mut log, &mut last_out) {
                 Outcome::Done => done += 1,
                 Outcome::Skipped => skipped += 1,
                 Outcome::Panicked => {
@@ -374,10 +403,26 @@ pub fn run_schedules(args: &pv_core::Args) {
                 }
             }
         }
-        res.ev(json!({"id": sid, "done": done, "skipped": skipped, "panicked": panicked}));
+        let mut mismatch = skipped > 0;
+        if let Some(exp) = row["exp"].as_array() {
+            let mut want: Vec<String> = exp
+                .iter()
+                .map(|o| pv_core::jarr(o).iter().map(|x| x.as_str().unwrap_or("")).collect::<Vec<_>>().join("/"))
+                .collect();
+            let model_panics = want.iter().any(|w| w.starts_with("panic/"));
+            want.sort();
+            last_out.sort();
+            if model_panics != panicked || (!panicked && want != last_out) {
+                mismatch = true;
+            }
+        }
+        res.ev(json!({"id": sid, "done": done, "skipped": skipped, "panicked": panicked, "mismatch": mismatch}));
     }
     log.finish();
     res.finish();
+    if !full {
+        let _ = std::fs::remove_file(&scratch);
+    }
 }
 
 // ---------------------------------------------------------------------------
@@ -397,8 +442,8 @@ fn weighted<'a>(rng: &mut Rng, c: &'a [(u64, Step)]) -> &'a Step {
 
 /// `big`: now and then a responder hands out a very large address list (more than was asked for)
 fn fill_payload(rng: &mut Rng, d: &mut MsgDesc, versions: &[u64], npeers: u64, big: bool) {
-    if big && d.proto == "peersharing" && d.kind == "SharePeers" && rng.chance(1, 3) {
-        let n = rng.range(60, 160);
+    if big && d.proto == "peersharing" && d.kind == "SharePeers" && rng.chance(1, 2) {
+        let n = rng.range(90, 170);
         let base = 100 + rng.below(4) * 150;
         d.peers = (0..n).map(|i| base + i).collect();
         return;
@@ -458,7 +503,7 @@ pub fn random_runs(args: &pv_core::Args) {
         // how eagerly confirmations are delivered in this run (C28: "arbitrarily delayed")
         // C27 confirms eagerly: delayed confirmations make the initiator ban honest peers (C28's defect)
         let sent_w = if mode == "c27" { 12 } else { *rng.pick(&[1u64, 3, 8]) };
-        // C27 runs and every second C29 run are "tame" (no Connected without an outstanding Connect, no stray handshake
+        // C27 runs and two of three C29 runs are "tame" (no Connected without an outstanding Connect, no stray handshake
         // messages), so that long runs exist next to the ones that hit the handshake assertion early
         // per-run profile: error storms / disconnect storms in some runs
         let mut err_w = if mode == "c28" { 1 } else { *rng.pick(&[1u64, 1, 12]) };
@@ -469,14 +514,22 @@ pub fn random_runs(args: &pv_core::Args) {
             err_w = noise * *rng.pick(&[1u64, 4]);
             disc_w = noise;
         }
-        let tame = mode == "c27" || (mode == "c29" && run % 2 == 1);
+        // C29 flavours: 0 wild, 1 tame, 2 productive (tame and little noise, so that long legal flows complete)
+        let tame = mode == "c27" || (mode == "c29" && run % 3 != 0);
+        let productive = mode == "c29" && run % 3 == 2;
+        let mut sent_w = sent_w;
+        if productive {
+            err_w = 1;
+            disc_w = 1;
+            sent_w = 12;
+        }
         let mut n = 0;
         while n < events {
             let tracked = d.tracked();
             let mut c: Vec<(u64, Step)> = vec![];
             let inc_w = if tracked.len() < 3 { 16 } else if mode == "c27" && (tracked.len() as u64) < npeers * 2 / 3 { 8 } else { 3 };
             c.push((inc_w, Step::new("include", rng.range(1, npeers))));
-            c.push((if mode == "c27" { 10 } else { 24 }, Step::new("hk", 0)));
+            c.push((if mode == "c27" || productive { 10 } else { 24 }, Step::new("hk", 0)));
             c.push((2, Step::new("idle", 0)));
             if !tracked.is_empty() {
                 let t = *rng.pick(&tracked);
@@ -513,7 +566,7 @@ pub fn random_runs(args: &pv_core::Args) {
                 }
                 if let Some(v) = d.views.get(p) {
                     let mut opts = v.options('s');
-                    if mode == "c27" {
+                    if mode == "c27" || productive {
                         // replies only to confirmed requests, handshakes mostly accepted: keeps the runs productive
                         let pend: Vec<String> =
                             d.pending.get(p).map(|v| v.iter().map(|m| msgs::describe(m).proto).collect()).unwrap_or_default();
@@ -524,7 +577,7 @@ pub fn random_runs(args: &pv_core::Args) {
                     }
                     if !opts.is_empty() {
                         let mut m = rng.pick(&opts).clone();
-                        fill_payload(&mut rng, &mut m, &versions, npeers, mode == "c29" && !snap);
+                        fill_payload(&mut rng, &mut m, &versions, npeers, mode != "c28" && !snap);
                         c.push((16, Step::msg("recv", *p, m)));
                     }
                 }
@@ -532,7 +585,7 @@ pub fn random_runs(args: &pv_core::Args) {
             if mode != "c28" {
                 // events no real connection would produce
                 let anyp = rng.range(1, npeers);
-                let w = if mode == "c29" { 6 } else { noise };
+                let w = if productive { 1 } else if mode == "c29" { 6 } else { noise };
                 let mut m1 = msgs::random_desc(&mut rng, npeers);
                 let mut m2 = msgs::random_desc(&mut rng, npeers);
                 while tame && (m1.proto == "handshake" || m2.proto == "handshake") {
@@ -540,7 +593,7 @@ pub fn random_runs(args: &pv_core::Args) {
                     m2 = msgs::random_desc(&mut rng, npeers);
                 }
                 c.push((w, Step::msg("recv", anyp, m1)));
-                c.push((if mode == "c29" { 3 } else { noise.min(1) }, Step::msg("sent", anyp, m2)));
+                c.push((if productive { 1 } else if mode == "c29" { 3 } else { noise.min(1) }, Step::msg("sent", anyp, m2)));
                 if !tame {
                     c.push((if mode == "c29" { 2 } else { 1 }, Step::new("connected", anyp)));
                 }
